@@ -81,3 +81,16 @@ def k4_with_indices(prop, repo, verif, workdir, tier, seed, log):
           ("substring_empty", "WithIndices<&str>::substring.get_unchecked.pre(empty)")]
     bound = "bounded: text from a 5-entry catalogue; start_index/end_index symbolic over all of usize x usize (complete in the indices)"
     return [K.run_set("with_indices", prop, repo, verif, workdir, mods, hs, log, bounded=bound, jobs=6, timeout=600)]
+
+
+def k5_codec_cross(prop, repo, verif, workdir, tier, seed, log):
+    """thorough tier only: the Verus codec contracts re-checked on the compiled real code"""
+    if tier != "thorough":
+        return []
+    kd = os.path.join(verif, "kani")
+    mods = {"src/encoder.rs": [kd + "/codec_enc_cross.rs"], "src/decoder.rs": [kd + "/codec_dec_cross.rs"]}
+    hs = [("encode_vlq_full_domain", "encode_vlq.ensures(full u32 x u32 domain; complete)"),
+          ("decoder_first_vs_reader_len4", "MappingsDecoder::next==dec_next(un-rewritten for-loop; all ASCII strings of 4 bytes)"),
+          ("decoder_first_vs_reader_len6", "MappingsDecoder::next==dec_next(un-rewritten for-loop; all ASCII strings of 6 bytes)")]
+    bound = "encode_vlq: complete (loop bounded by operand width, unwinding assertions on); decoder: bounded, first next() on all ASCII strings of 4 and 6 bytes"
+    return [K.run_set("codec_cross", prop, repo, verif, workdir, mods, hs, log, bounded=bound, jobs=3, timeout=2400, mem_mb=16000)]
